@@ -105,7 +105,7 @@ def dumpObj (s : St) : Nat → Nat → Json
     | some o =>
       Json.arr #[jNat o.kind.code, jInt o.id,
         (match o.node with | some n => jInt n | none => Json.null),
-        jFix o.fix, Json.arr (o.kids.map (dumpObj s fuel)).toArray]
+        jFix o.fix, Json.arr ((kidsSeen s h o).map (dumpObj s fuel)).toArray]
 
 def allKinds : List Kind := [.ent, .solid, .face, .group, .vis, .node]
 
